@@ -127,9 +127,13 @@ class CanSignal:
 
         # If the data type is not in the type map, it is a user defined type or a short type (i12, u5...) so we need to calculate the scalar type
         if self.data_type not in type_map.values():
+            is_short_type = self.data_type == self.scalar_type
             self.scalar_type = type_map[
-                "i" if self.signed else "u" + str(ceil_to_power_of_2(self.bit_length))
+                ("i" if self.signed else "u")
+                + str(ceil_to_power_of_2(self.bit_length))
             ]
+            if is_short_type:
+                self.data_type = self.scalar_type
         else:
             self.scalar_type = self.data_type
 
